@@ -1,13 +1,17 @@
 (* C01 — opposite references stay symmetric.  Statements only; proofs in
    Proofs/C01Proofs.v.  Model: Model/Kernel.v (EValue._set, ECollection.remove
    and their opposite handling, statement by statement).
-   Proved here, for every state, object, feature and multiplicity pairing
-   (1-1, 1-n, n-1, n-n, self-opposites included): the releasing direction —
-   unsetting a single-valued end and removing from a multi-valued end keep
-   `y in x.r  <->  x in y.r'`.  PARTIAL: the linking direction (assign/append
-   with partner stealing), clear/extend/delete and the interplay with
-   containment are not yet theorems; they are carried by the correspondence
-   and the symmetric-pair oracle (harness/props/c01.py). *)
+   Proved here, for every state and object:
+   * the releasing direction, for every multiplicity pairing (1-1, 1-n, n-1,
+     n-n, self-opposites included): unsetting a single-valued end and removing
+     from a multi-valued end keep `y in x.r  <->  x in y.r'`;
+   * RE-POINTING a 1-1 reference (x.r = y whatever x and y were linked to
+     before): the previous partner of x is released, the previous partner of y
+     is detached, and symmetry holds afterwards — the statement's headline.
+   PARTIAL: re-pointing/appending for the 1-n, n-1, n-n pairings and
+   self-opposites, clear/extend/delete and the interplay with containment are
+   not yet theorems; they are carried by the correspondence and the
+   symmetric-pair oracle (harness/props/c01.py). *)
 From Coq Require Import List Bool Arith.
 From PyecoreV Require Import Lib.PyBase Lib.PyList Model.Kernel Proofs.KernelFacts Proofs.C01Proofs.
 Import ListNotations.
@@ -30,6 +34,17 @@ Theorem C01_remove_keeps_symmetry_partial :
 Proof. exact remove_preserves_sym. Qed.
 Print Assumptions C01_remove_keeps_symmetry_partial.
 
+Theorem C01_repointing_one_to_one_keeps_symmetry_partial :
+  forall m, no_containment m -> wf_opp m ->
+  forall s x f g y,
+    sym m s -> shape m s ->
+    f_opp (fd m f) = Some g -> f <> g ->
+    f_many (fd m f) = false -> f_many (fd m g) = false ->
+    check_single m f (VObj y) = true ->
+    sym m (snd (set_full m s (x, f) (VObj y))).
+Proof. exact set11_preserves_sym. Qed.
+Print Assumptions C01_repointing_one_to_one_keeps_symmetry_partial.
+
 (* non-vacuity: a 1-n pair, a reachable symmetric state, and the theorem's conclusion computed *)
 Definition ex_mm : mm :=
   {| feats := [ {| f_owner := 0; f_isref := true; f_many := false; f_unique := true; f_cont := false;
@@ -46,3 +61,17 @@ Example C01_witness :
   (vals s3 (2, 1), vals s3 (3, 1), vals s3 (0, 0), vals s3 (1, 0)) = ([VObj 1], [VObj 0], [VObj 3], [VObj 2])
   /\ (vals s4 (2, 1), vals s4 (1, 0)) = ([], [VNone]).
 Proof. vm_compute. split; reflexivity. Qed.
+
+(* non-vacuity of the re-pointing theorem: a 1-1 pair, both ends already linked elsewhere *)
+Definition ex_mm11 : mm :=
+  {| feats := [ {| f_owner := 0; f_isref := true; f_many := false; f_unique := true; f_cont := false;
+                   f_opp := Some 1; f_type := TClass 1; f_default := VNone |};
+                {| f_owner := 1; f_isref := true; f_many := false; f_unique := true; f_cont := false;
+                   f_opp := Some 0; f_type := TClass 0; f_default := VNone |} ];
+     conf := [(0, 0); (1, 1)]; ocls := [0; 0; 1; 1]; enames := []; nres := 0 |}.
+
+Example C01_repointing_witness :
+  let s2 := fold_left (next ex_mm11) [OSet 0 0 (VObj 2); OSet 1 0 (VObj 3)] (init_state ex_mm11) in
+  let s3 := next ex_mm11 s2 (OSet 0 0 (VObj 3)) in
+  (vals s3 (0, 0), vals s3 (1, 0), vals s3 (2, 1), vals s3 (3, 1)) = ([VObj 3], [VNone], [VNone], [VObj 0]).
+Proof. vm_compute. reflexivity. Qed.
